@@ -53,7 +53,7 @@ SQLArgs = Sequence[Any] | Mapping[str, Any]
 
 
 def prefix_clause(column: str, prefix: str) -> tuple[str, str]:
-    """Build a LIKE predicate and its argument for matching a column against a prefix.
+    """Build a predicate and its argument for matching a column against a prefix, byte for byte.
 
     Parameters
     ----------
@@ -62,7 +62,7 @@ def prefix_clause(column: str, prefix: str) -> tuple[str, str]:
         This must be a literal from the calling code, never user input.
     prefix
         The literal prefix to match.
-        Characters with a special meaning in LIKE patterns are escaped.
+        Characters with a special meaning in GLOB patterns are escaped.
 
     Returns
     -------
@@ -73,11 +73,14 @@ def prefix_clause(column: str, prefix: str) -> tuple[str, str]:
 
     Notes
     -----
-    SQLite only honors the escape character when the query carries an `ESCAPE` clause,
-    so the predicate and its argument are built together and must be used together.
+    The predicate and its argument are built together and must be used together.
     """
-    escaped = prefix.replace("\\", "\\\\").replace("%", "\\%").replace("_", "\\_")
-    return f"{column} LIKE ? ESCAPE '\\'", f"{escaped}%"
+    # GLOB instead of LIKE, because LIKE ignores the case of ASCII letters,
+    # so that the prefix `Data/` would also select `data/x`.
+    # GLOB compares byte for byte and has no escape character:
+    # a special character is matched literally when it is enclosed in brackets.
+    escaped = prefix.replace("[", "[[]").replace("*", "[*]").replace("?", "[?]")
+    return f"{column} GLOB ?", f"{escaped}*"
 
 
 #
